@@ -40,15 +40,18 @@ CONSTANTS Accts,      \* account ids, e.g. {1, 2}
           Alpha,      \* "full" | "small": the alphabet of the synchronous actions (bounded-exhaustive generation uses "small")
           Slim,       \* TRUE: only account 1 uses the whole transaction alphabet (smaller design runs)
           Strict,     \* TRUE: the invariants are not weakened by the known-finding classes
+          Goal,       \* "none" | "fullreplace" | "tailremove" | "holefilter": see the section "goals"
           HoleRepair  \* TRUE = demoteUnexecutables also postpones everything above a hole (repaired code, findings/C20_proposed_repair.patch)
 
 VARIABLES s,          \* the pool: [pend, que, all, loc, pn, sn, sb, gp]
           work,       \* reorg work requested and not yet run: [dirty: set of accounts, reset: <<>> or <<newsn, newsb, reinject>>]
           last,       \* the block the head was last advanced by: <<>> or <<a, txs, prev nonce, prev balance>>
+          goal,       \* goal-directed generation: TRUE once the behaviour has reached the situation named by the constant Goal
+          arr,        \* goal "tailremove" only: the singly submitted transactions in arrival order (part of the view, unlike hist)
           dem,        \* observation for the known-finding class: [acc: accounts whose queue overflow began with a demotion, glob: same for the global queue limit]
           nops,
           hist
-vars == <<s, work, last, dem, nops, hist>>
+vars == <<s, work, last, dem, goal, arr, nops, hist>>
 
 Nonces == 0..MaxNonce
 TxAll == [a : Accts, n : Nonces, p : Prices, v : Vals]
@@ -60,10 +63,11 @@ NoWork == [dirty |-> {}, reset |-> <<>>]
 
 Init == /\ s = [pend |-> [a \in Accts |-> {}], que |-> [a \in Accts |-> {}], all |-> {}, loc |-> {},
                 pn |-> [a \in Accts |-> -1], sn |-> [a \in Accts |-> 0], sb |-> [a \in Accts |-> 4], gp |-> 1]
-        /\ work = NoWork /\ last = <<>> /\ nops = 0 /\ dem = [acc |-> {}, glob |-> FALSE, gap |-> {}]
+        /\ work = NoWork /\ last = <<>> /\ nops = 0 /\ goal = FALSE /\ arr = <<>> /\ dem = [acc |-> {}, glob |-> FALSE, gap |-> {}]
         /\ hist = <<[op |-> "Init", accts |-> Accts, as |-> AS, gs |-> GS, aq |-> AQ, gq |-> GQ, bump |-> Bump]>>
 
 Tick(rec) == /\ nops < MaxOps /\ nops' = nops + 1
+             /\ arr' = IF Goal = "tailremove" /\ rec.op = "AddSync" /\ Len(rec.ts) = 1 THEN Append(arr, rec.ts[1]) ELSE arr
              /\ hist' = Append(hist, rec)
 
 \* ---------------------------------------------------------------- helpers
@@ -272,6 +276,43 @@ NewDemR(st, st2, reinj) ==
     gap  |-> { a \in Accts : ~GapFreeAt(st2, a) /\ (a \in dem.gap \/ \E t \in reinj : t.a = a /\ t \notin st2.all) }]
 NewDem(st, st2) == NewDemR(st, st2, {})
 
+\* ---------------------------------------------------------------- goals (goal-directed generation)
+\* Situations that are rare under random simulation and too deep for bounded-exhaustive generation are reached by model
+\* checking: the invariant NoGoal fails in the first state in which the behaviour has produced the situation, and the
+\* counterexample is the behaviour that is then replayed on the real pool.
+\* "fullreplace": a remote price bump of the sender's only pending transaction arrives at an exactly full pool, and making
+\* room may evict that very transaction.
+GoalFullReplace(st, t) ==
+   LET old == At(st.pend[t.a], t.n) IN
+   /\ t \notin st.all /\ t.a \notin st.loc /\ st.gp <= t.p /\ st.sn[t.a] <= t.n /\ st.sb[t.a] >= Cost(t)
+   /\ Cardinality(st.all) >= GS + GQ
+   /\ old # {} /\ Cardinality(st.pend[t.a]) = 1 /\ CanReplace(CHOOSE o \in old : TRUE, t)
+   /\ \A D \in DiscardChoices(st, Cardinality(st.all) - (GS + GQ - 1)) : old \subseteq D        \* whichever way ties are broken
+\* "tailremove": an account has at least three queued transactions, the one that ARRIVED last (single submissions, in the
+\* order of the history) does not carry the highest nonce, and re-pricing removes exactly that one of them.
+LastArrived(Q) ==
+   LET I == { i \in DOMAIN arr : arr[i] \in Q } IN
+   IF I = {} THEN {} ELSE {arr[Max(I)]}
+GoalTailRemove(st, p) ==
+   \E a \in Accts \ st.loc :
+      LET Q == st.que[a]
+          R == { t \in Q : t.p < p } IN
+      /\ Cardinality(Q) >= 3 /\ Cardinality(R) = 1 /\ R = LastArrived(Q)
+      /\ \E u \in Q \ R : \A t \in R : u.n > t.n
+      /\ \A t \in Q : \E i \in DOMAIN arr : arr[i] = t
+\* "holefilter": a reorg whose re-injection leaves a hole in a pending list while the balance it restores makes a pending
+\* transaction ABOVE the hole unpayable, with followers, and a payable one in between.
+GoalHoleFilter(st, r) ==
+   \E s0 \in ResetS(st, r) :
+      LET s1 == PromoteAll(s0, { a \in Accts : s0.que[a] # {} }) IN
+      \E a \in Accts :
+         LET l1  == { t \in s1.pend[a] : t.n >= s1.sn[a] }
+             dr  == { t \in l1 : Cost(t) > s1.sb[a] }
+             inv == IF dr = {} THEN {} ELSE { t \in l1 \ dr : t.n > Min(NoncesOf(dr)) }
+             l2  == l1 \ (dr \cup inv) IN
+         /\ dr # {} /\ inv # {} /\ l2 # {} /\ At(l2, s1.sn[a]) # {}
+         /\ Run(l2, Min(NoncesOf(l2))) # l2
+
 \* one submission (split mode): the transaction is added under the lock, promotion is requested
 Add(t, local) ==
    /\ Mode = "split"
@@ -280,7 +321,7 @@ Add(t, local) ==
          /\ s' = o.st
          /\ work' = [work EXCEPT !.dirty = IF o.dirty THEN @ \cup {t.a} ELSE @]
    /\ dem' = NewDem(s, s')
-   /\ UNCHANGED last
+   /\ UNCHANGED <<last, goal>>
 
 \* the head moved (split mode): a reset is requested; the pool's own state changes only when the reorg step runs
 \* the block that advances the nonce of a to n: the pool's pending transactions where it has them (what a miner takes),
@@ -293,14 +334,14 @@ HeadChange(a, n, b) ==
    /\ Tick([op |-> "HeadChange", a |-> a, n |-> n, b |-> b])
    /\ work' = [work EXCEPT !.reset = <<a, n, b, {}>>]
    /\ last' = IF n > s.sn[a] THEN <<a, Mined(a, n), s.sn[a], s.sb[a]>> ELSE <<>>
-   /\ UNCHANGED <<s, dem>>
+   /\ UNCHANGED <<s, dem, goal>>
 
 HeadBack ==
    /\ Mode = "split" /\ work.reset = <<>> /\ last # <<>>
    /\ Tick([op |-> "HeadBack"])
    /\ work' = [work EXCEPT !.reset = <<last[1], last[3], last[4], last[2]>>]
    /\ last' = <<>>
-   /\ UNCHANGED <<s, dem>>
+   /\ UNCHANGED <<s, dem, goal>>
 
 RunReorg ==
    /\ Mode = "split" /\ ~Quiet
@@ -308,7 +349,7 @@ RunReorg ==
    /\ s' \in ReorgS(s, work.dirty, work.reset)
    /\ dem' = NewDemR(s, s', IF work.reset = <<>> THEN {} ELSE work.reset[4])
    /\ work' = NoWork
-   /\ UNCHANGED last
+   /\ UNCHANGED <<last, goal>>
 
 \* the synchronous entry points (sync mode): a batch is added, then the reorg step runs before the call returns
 RECURSIVE AddSeqS(_, _, _, _)
@@ -322,6 +363,7 @@ AddSync(ts, local) ==
    /\ Tick([op |-> "AddSync", ts |-> ts, local |-> local])
    /\ \E x \in AddSeqS({[st |-> s, dirty |-> {}]}, ts, 1, local) : s' \in ReorgS(x.st, x.dirty, <<>>)
    /\ dem' = NewDem(s, s')
+   /\ goal' = (goal \/ (Goal = "fullreplace" /\ Len(ts) = 1 /\ ~local /\ GoalFullReplace(s, ts[1])))
    /\ UNCHANGED <<work, last>>
 
 ResetSync(a, n, b) ==
@@ -331,13 +373,14 @@ ResetSync(a, n, b) ==
    /\ s' \in ReorgS(s, {}, <<a, n, b, {}>>)
    /\ dem' = NewDem(s, s')
    /\ last' = IF n > s.sn[a] THEN <<a, Mined(a, n), s.sn[a], s.sb[a]>> ELSE <<>>
-   /\ UNCHANGED work
+   /\ UNCHANGED <<work, goal>>
 
 ResetBack ==
    /\ Mode = "sync" /\ last # <<>>
    /\ Tick([op |-> "ResetBack"])
    /\ s' \in ReorgS(s, {}, <<last[1], last[3], last[4], last[2]>>)
    /\ dem' = NewDemR(s, s', last[2])
+   /\ goal' = (goal \/ (Goal = "holefilter" /\ GoalHoleFilter(s, <<last[1], last[3], last[4], last[2]>>)))
    /\ last' = <<>>
    /\ UNCHANGED work
 
@@ -346,6 +389,7 @@ SetGasPrice(p) ==
    /\ Tick([op |-> "SetGasPrice", p |-> p])
    /\ s' = RemoveAll([s EXCEPT !.gp = p], { t \in Remote(s) : t.p < p })
    /\ dem' = NewDem(s, s')
+   /\ goal' = (goal \/ (Goal = "tailremove" /\ GoalTailRemove(s, p)))
    /\ UNCHANGED <<work, last>>
 
 \* the eviction tick after every heartbeat has become older than the lifetime
@@ -353,7 +397,7 @@ Evict ==
    /\ Tick([op |-> "Evict"])
    /\ s' = RemoveAll(s, UNION { s.que[a] : a \in Accts \ s.loc })
    /\ dem' = NewDem(s, s')
-   /\ UNCHANGED <<work, last>>
+   /\ UNCHANGED <<work, last, goal>>
 
 \* the small alphabet: expensive transactions only at the lowest price, local submissions only of the plainest kind,
 \* batches of two only from one account at one price
@@ -365,8 +409,15 @@ NextSplit ==
    \/ \E a \in Accts, n \in 0..(MaxNonce + 1), b \in Bals : HeadChange(a, n, b)
    \/ HeadBack \/ RunReorg
 
+\* the alphabet of the goal runs: single remote submissions, head changes, re-pricing
+NextGoal ==
+   \/ \E t \in Tx : AddSync(<<t>>, FALSE)
+   \/ \E a \in Accts, n \in 0..(MaxNonce + 1), b \in Bals : ResetSync(a, n, b)
+   \/ ResetBack
+
 NextSync ==
-   IF Alpha = "small"
+   IF Alpha = "goal" THEN NextGoal
+   ELSE IF Alpha = "small"
    THEN \/ \E t \in SmallTx, local \in BOOLEAN : (local => Plain(t)) /\ AddSync(<<t>>, local)
         \/ \E t, u \in SmallTx : t.a = u.a /\ t.n < u.n /\ t.p = u.p /\ t.v = MinV /\ u.v = MinV /\ AddSync(<<t, u>>, FALSE)
         \/ \E a \in Accts, n \in 0..(MaxNonce + 1), b \in Bals : ResetSync(a, n, b)
@@ -418,7 +469,9 @@ I_Limits   == LimitsRespected \/ Cex("LimitsRespected")
 I_Union    == AllIsUnion \/ Cex("AllIsUnion")
 I_Nonce    == NonceTracksPending \/ Cex("NonceTracksPending")
 
+NoGoal == ~goal \/ Cex("goal:" \o Goal)
+
 \* ---------------------------------------------------------------- generation
 Leaf == (GenMode = "leaf" /\ nops = MaxOps) => PrintT("@@J " \o ToJson([kind |-> "B", h |-> hist]))
-View == <<s, work, last, dem, nops>>
+View == <<s, work, last, dem, goal, arr, nops>>
 =============================================================================
